@@ -119,8 +119,9 @@ func (s *memStmt) Query(args []driver.Value) (driver.Rows, error) {
 }
 
 type memRows struct {
-	db  *memDB
-	pos int
+	db   *memDB
+	pos  int
+	prev []byte
 }
 
 func (r *memRows) Columns() []string { return r.db.rsNames }
@@ -133,6 +134,26 @@ func (r *memRows) Next(dest []driver.Value) error {
 		return io.EOF
 	}
 	copy(dest, r.db.rsRows[r.pos])
+	// database/sql allows a driver to reuse the memory of []byte values between calls of Next ("the
+	// driver.Value slices are only valid until the next call"): what the previous row handed out is
+	// overwritten when the next row is delivered
+	for i := range r.prev {
+		r.prev[i] = '#'
+	}
+	cur := []byte{}
+	for _, v := range dest {
+		if b, ok := v.([]byte); ok {
+			cur = append(cur, b...)
+		}
+	}
+	off := 0
+	for i, v := range dest {
+		if b, ok := v.([]byte); ok {
+			dest[i] = cur[off : off+len(b) : off+len(b)]
+			off += len(b)
+		}
+	}
+	r.prev = cur
 	r.pos++
 	return nil
 }
